@@ -55,6 +55,23 @@ CLAIMS = {
              "coordinates'; equality of parallel and serial numerical results is not decided.",
         technique="index-space/window type inference over the AST + layout typestate over the driver's call sequence",
         design="5/C05, 4.2"),
+    "C10": dict(
+        text="Element-wise model of FluxSurfaceAdvection._getLagrangePts compared with the stated geometry (b_z, theta shift per "
+             "cell, foot displacement -v b_z dt, stencil cells centred on the foot, theta shifts, node distances, first "
+             "barycentric weights with an exact on-node case); sibling agreement of b_z and pitch with ParallelGradient and "
+             "fieldline; table writer/reader agreement of the two kernels by symbolic forward substitution; dispatch, argument "
+             "roles, interpolate-before-evaluate, no mutation of the per-(r,v) tables; index-space typing of the tables and of "
+             "gridStep. The algebraic identities (constants, linearity, shift commutation) are consequences and are not "
+             "decided separately.",
+        technique="element-wise numpy-to-formula normal forms (sympy) + symbolic forward substitution + index-space typing",
+        design="5/C10"),
+    "C13": dict(
+        text="Finite-difference moment system, field-line angle table, equality of the three index regimes and tiling of [0,nz), "
+             "pairing of shift/coefficient/angle column and target row in the scatter-add, single scaling by b_z(r_i)/dz, sibling "
+             "agreement of b_z and pitch with the flux-surface advection, no mutation of the precomputed tables, and index-space "
+             "typing of the per-radius tables and of the grid-level caller. Convergence order is not decided.",
+        technique="structural formula rules + element-wise normal forms (sympy) + alias/mutation lint + index-space typing",
+        design="5/C13"),
     "C11": dict(
         text="Formula conformance by symbolic forward substitution: per boundary mode the kernel's assignment equals "
              "ITE(foot outside, fill, S(foot)) resp. S(periodically shifted foot); feet normalise to v_node - c*dt; mode "
